@@ -327,6 +327,21 @@ func init() {
 				"hottest": 0, "coldest": 0, "setmax": 0, "getmax": 0, "wsize": 0, "esize": 0, "stats": 0})},
 		nontrivial: func(o *SeqOutcome) bool { h, _ := probeSum(o, "op:get@", "live"); return h >= 17 },
 	})
+	// C17 at cache level under concurrency: readers, writers, InvalidateAll and CleanUp race on a cache
+	// with one or two read-buffer stripes; afterwards every recorded read must have been delivered
+	// (nothing left in the read buffer once maintenance ran at quiescence - rule
+	// lossy.read-buffer-not-drained), the policies must agree with the table (audit), and what the
+	// operations returned must be linearizable - the model knows nothing about a read buffer.
+	c17 := &ConcOpts{
+		Profile: Profile{Prop: "C17", AlsoProp: "C17", NoRef: true, NoExp: true, BoundOnly: true, MidBound: true, SmallReadBuf: true, Keys: [2]int{3, 10}},
+		OpW: zeroExcept(map[string]int{"get": 50, "getentry": 6, "set": 14, "compute": 3, "invalidate": 4, "invalidateall": 4, "cleanup": 5, "load": 3,
+			"hottest": 1, "coldest": 1, "setmax": 1}),
+		Tasks: [2]int{2, 5}, OpsPer: [2]int{6, 40}, Prefill: [2]int{4, 10},
+		Executors: []string{"default", "queued", "sync"}, Lin: true,
+		NonTrivial: func(o *ConcOutcome) bool { return o.Switches > 4 && o.Probes["bounded"] > 0 },
+	}
+	Props["C17"].Engines = append(Props["C17"].Engines, &concEngine{opts: c17})
+	Props["C17"].Conc = c17
 	// C19 with stream faults (separate, relaxed configuration): the stream is truncated, a Read fails,
 	// or a Write of the save fails and the prefix is loaded. Nothing is demanded to arrive, but
 	// whatever the target then holds must be a saved, unexpired entry with its value and deadlines,
